@@ -1,3 +1,3 @@
 Require Import ExtrOcamlBasic.
-From Eupsv Require Import Base.Base Model.PathAlg Model.Setup Model.Expand.
-Extraction "model.ml" keep_types setup expand_gen render.
+From Eupsv Require Import Base.Base Model.PathAlg Model.Setup Model.Expand Model.ExpandText.
+Extraction "model.ml" keep_types setup expand_gen render expand_text_gen classify_text.
